@@ -69,7 +69,7 @@ REPL = [
   "* node *kinds* are not compared across dump→parse (C18: an f-string node is dumped as the equivalent eval node) and function\n  targets are compared by name, never by `repr()` (C19);\n"
   "* `{{…}}` metadata on `!path:abs(/x)` (the tag characters `/` are outside the `{{` rewriting) and strings containing `{{` (C01, C11);\n"
   "* mapping-onto-list keys that spell the same index twice (`1` and `-2`) in the key-permutation relation of C15;\n"
-  "* originals whose containers are already inconsistent after a merge promotion (C19, see section 5 observations);\n"
+  "* originals whose containers are already inconsistent after a merge promotion were skipped by C19 - until a sub-agent's side note showed the inconsistency to be a defect of its own (R35); they are violations now;\n"
   "* C06 missing files: only the first include node with missing files is ever reached, so \"names every missing file\" is\n  asserted per include node;\n"
   "* found by the thorough tiers: an override mapping that addresses one list element twice (`{1: x, -1: y}`, C08), a referenced\n  container replaced by a later stage (dangling references, C10), two premerge operators aimed at one list (C16), a middle stage\n  overwriting the key the focus path runs through (C04b), block scalars inside flow collections (renderer, C01);\n"
   "* a slot whose container kind changes between stages (list, then mapping) in the C07 layout."),
